@@ -52,6 +52,25 @@ let part1 op ps args =
      | "convert.u32" | "convert.i32" | "convert.i64" | "convert.u64" | "convert.double" | "convert.integer" | "convert.float" | "convert.u16" ->
        s (Model.convert f a.(0))
      | "write" -> s (Model.write_value f a.(0))
+     | _ when String.length op > 6 && String.sub op 0 6 = "vsmod." ->
+       (* Montgomery side of the comparison with Modular<int32_t>: init from the residues, the operation, convert (printed twice:
+          the plain ring must give the same number) *)
+       let g i = if Array.length a > i then Model.init_uint32 f a.(i) else Model.Z0 in
+       let x = g 0 and y = g 1 and z = g 2 in
+       let cv r = let v = s (Model.convert f r) in v ^ " " ^ v in
+       let co = function Some r -> cv r | None -> "NONE" in
+       let fl b = bs b ^ " " ^ bs b in
+       (match String.sub op 6 (String.length op - 6) with
+        | "add" | "addin" -> cv (Model.add32 f x y) | "sub" | "subin" -> cv (Model.sub32 f x y)
+        | "mul" -> cv (Model.mul32 f x y) | "mulin" -> cv (Model.mulin f x y)
+        | "neg" | "negin" -> cv (Model.neg f x) | "inv" | "invin" -> co (Model.inv f x)
+        | "div" -> co (Model.div32 f x y) | "divin" -> co (Model.divin f x y)
+        | "axpy" -> cv (Model.axpy f x y z) | "axmy" -> cv (Model.axmy f x y z) | "maxpy" -> cv (Model.maxpy f x y z)
+        | "axpyin" -> cv (Model.axpyin f z x y) | "axmyin" -> cv (Model.axmyin f z x y) | "maxpyin" -> cv (Model.maxpyin f z x y)
+        | "isZero" -> fl (Model.isZero (Model.mul32 f x y))
+        | "areEqual" -> fl (Model.areEqual (Model.add32 f x y) z)
+        | "isUnit" -> (match Model.isUnit f x with Some b -> fl b | None -> "NONE")
+        | _ -> "UNKNOWN-OP")
      | "isUnit" -> s (Model.opt_b (Model.isUnit f a.(0)))
      | "isZero" -> bs (Model.isZero a.(0)) | "isOne" -> bs (Model.isOne f a.(0)) | "isMOne" -> bs (Model.isMOne f a.(0))
      | "areEqual" -> bs (Model.areEqual a.(0) a.(1))
@@ -256,6 +275,21 @@ let part2 op ks ps args =
     | "isOne" -> bs (Model.mga_eq a.(0) m.Model.g_one)
     | "isMOne" -> bs (Model.mga_eq a.(0) m.Model.g_mOne)
     | "areEqual" -> bs (Model.mga_eq a.(0) a.(1))
+    | _ when String.length name > 6 && String.sub name 0 6 = "vsmod." ->
+      let g i = if Array.length a > i then Model.mr_init k m a.(i) else Model.Z0 in
+      let x = g 0 and y = g 1 and z = g 2 in
+      let cv r = let v = h (Model.mr_convert k m r) in v ^ " " ^ v in
+      let fl b = bs b ^ " " ^ bs b in
+      (match String.sub name 6 (String.length name - 6) with
+       | "add" | "addin" -> cv (Model.mr_add k m x y) | "sub" -> cv (Model.mr_sub k m x y) | "subin" -> cv (Model.mr_subin k m x y)
+       | "mul" | "mulin" -> cv (Model.mr_mul k m x y) | "neg" | "negin" -> cv (Model.mr_neg k m x)
+       | "inv" | "invin" -> cv (Model.mr_inv k m x) | "div" -> cv (Model.mr_div k m x y) | "divin" -> cv (Model.mr_divin k m x y)
+       | "axpy" -> cv (Model.mr_axpy k m x y z) | "axmy" -> cv (Model.mr_axmy k m x y z) | "maxpy" -> cv (Model.mr_maxpy k m x y z)
+       | "axpyin" -> cv (Model.mr_axpyin k m z x y) | "axmyin" -> cv (Model.mr_axmyin k m z x y) | "maxpyin" -> cv (Model.mr_maxpyin k m z x y)
+       | "isZero" -> fl (Model.isZero (Model.mr_mul k m x y))
+       | "areEqual" -> fl (Model.mga_eq (Model.mr_add k m x y) z)
+       | "isUnit" -> fl (Model.mr_isUnit m x)
+       | _ -> "UNKNOWN-OP")
     | "reduc.wide" -> h (Model.mr_reduc k m a.(0))
     | "mul.rry" | "mul.rxr" -> elt (Model.mr_mul k m a.(0) a.(1))
     | "mul.rrr" | "mulin.rr" -> elt (Model.mr_mul k m a.(0) a.(0))
